@@ -28,6 +28,19 @@
 //	    with another offset into the same string (both order-isomorphic to the byte offsets) and
 //	    used to slice that same string, `s[:i]` ↦ `s.take i.toNat`, `s[i:]` ↦ `s.drop i.toNat`, and
 //	    only on a path on which `i > 0` / `i >= 0` has been tested (otherwise Go would panic).
+//	    `len(s)` is the offset of the end of s, `Int.ofNat s.length` (the byte length and the number
+//	    of characters are the images of each other under the same order isomorphism); it is never
+//	    negative, so `s[:len(s)]` ↦ `s.take s.length`.  An offset variable may be assigned another
+//	    offset into the same string.
+//	    `strings.IndexAny(s, "cd")` for two distinct ASCII characters is the smaller of the first
+//	    positions of c and of d, the only non-negative one of them, or -1 (written with `TF.indexOf`).
+//	    `s[i] == 'c'` (c ASCII) for an offset i returned by Index / IndexAny and tested to be >= 0 is
+//	    `s[i.toNat]? == some 'c'`: such a position is in range and is the first byte of a character,
+//	    and that byte is the ASCII byte c iff the character is c.
+//	R3b local conditions.  `b := <condition>` is a `let` of type Bool.  On a path on which b itself
+//	    (or `!b`, or a conjunction / disjunction that fixes it) has been tested, later uses of b are
+//	    that constant (the `let` is immutable; an assignment to b makes a new one).  When b is true the
+//	    offsets that its defining condition shows to be >= 0 (R3) are known to be >= 0.
 //	R4  sigil guard.  `if len(s) < 2 || s[0] != 'c' { T }` (c ASCII, T does not fall through)
 //	    immediately followed by `s = s[1:]` is `match TF.strip 'c' s with | none => T | some s' => …`:
 //	    the first byte is the ASCII byte c iff the first character is c, and then the byte length is
@@ -116,17 +129,26 @@ type tval struct {
 	value  bool
 	decl   int
 	depth  int
+	// off: the offset is >= 0 whatever the path (len(s)); the offset, when >= 0, is the position of a
+	// character of the string (strings.Index / IndexAny), so that s[i] is in range
+	nonneg, atChar bool
+	implies        []string // bool: the offsets (Lean names) that are >= 0 when the value is true
 }
 
 type tfEnv struct {
 	heap  string
 	vars  map[string]tval
 	facts map[string]bool // Lean names of offsets known to be >= 0 on this path
+	known map[string]bool // Lean names of let-bound conditions whose value has been tested on this path
 	depth int
 }
 
 func (e *tfEnv) clone() *tfEnv {
 	c := &tfEnv{heap: e.heap, depth: e.depth, vars: make(map[string]tval, len(e.vars)), facts: make(map[string]bool, len(e.facts))}
+	c.known = make(map[string]bool, len(e.known))
+	for k, v := range e.known {
+		c.known[k] = v
+	}
 	for k, v := range e.vars {
 		c.vars[k] = v
 	}
@@ -204,6 +226,9 @@ func tfMerge(outer, inner *tfEnv) *tfEnv {
 	res.heap = inner.heap
 	for k, v := range inner.facts {
 		res.facts[k] = v
+	}
+	for k, v := range inner.known {
+		res.known[k] = v
 	}
 	for name, ov := range outer.vars {
 		if iv, ok := inner.vars[name]; ok && iv.decl == ov.decl {
@@ -381,6 +406,10 @@ func (x *tfx) pure(e ast.Expr, env *tfEnv) tval {
 	switch e := e.(type) {
 	case *ast.Ident:
 		if v, ok := env.vars[e.Name]; ok {
+			if val, tested := env.known[v.lean]; tested && v.typ == "bool" && !v.static {
+				// a let-bound condition that has been tested on this path
+				return tval{typ: "bool", static: true, value: val}
+			}
 			return v
 		}
 		switch e.Name {
@@ -398,6 +427,10 @@ func (x *tfx) pure(e ast.Expr, env *tfEnv) tval {
 				return tfAtom("int", strconv.FormatInt(n, 10))
 			}
 		}
+		if c, ok := charLit(e); ok && c < 0x80 {
+			// only comparable with a byte of a string (x.binary)
+			return tval{typ: "asciiLit", lean: "some " + leanChar(c), prec: 70}
+		}
 	case *ast.UnaryExpr:
 		if e.Op == token.NOT {
 			v := x.use(e.X, x.pure(e.X, env))
@@ -411,6 +444,14 @@ func (x *tfx) pure(e ast.Expr, env *tfEnv) tval {
 		}
 	case *ast.SliceExpr:
 		return x.slice(e, env)
+	case *ast.IndexExpr:
+		// R3: the byte at a position found by strings.Index / IndexAny (in range, a character boundary)
+		s := x.use(e.X, x.pure(e.X, env))
+		i := x.use(e.Index, x.pure(e.Index, env))
+		if s.typ != "str" || i.typ != "off" || i.of != s.lean || !i.atChar || !env.facts[i.lean] {
+			failAt(e, "a string may only be indexed at an offset obtained by strings.Index / IndexAny on the same string and known to be non-negative: %s", src(e))
+		}
+		return tval{typ: "byte", lean: tfWrap(s, 100) + "[" + tfWrap(i, 100) + ".toNat]?", prec: 100}
 	case *ast.CallExpr:
 		if _, shadow := env.vars["int"]; !shadow && isIdent(e.Fun, "int") && len(e.Args) == 1 {
 			v := x.pure(e.Args[0], env)
@@ -419,13 +460,34 @@ func (x *tfx) pure(e ast.Expr, env *tfEnv) tval {
 			}
 			return v
 		}
+		if _, shadow := env.vars["len"]; !shadow && isIdent(e.Fun, "len") && len(e.Args) == 1 {
+			// R3: the end of the string as an offset into it
+			s := x.use(e.Args[0], x.pure(e.Args[0], env))
+			if s.typ != "str" {
+				failAt(e, "len of something that is not a string: %s", src(e))
+			}
+			return tval{typ: "off", lean: "Int.ofNat " + tfWrap(s, 100) + ".length", prec: 70, of: s.lean, nonneg: true}
+		}
 		if px, sel, ok := selOf(e.Fun); ok && px == "strings" && sel == "Index" && len(e.Args) == 2 {
 			s := x.use(e.Args[0], x.pure(e.Args[0], env))
 			pat, isLit := stringLit(e.Args[1])
 			if s.typ != "str" || !isLit || len(pat) != 1 || pat[0] >= 0x80 {
 				failAt(e, "expected strings.Index(<string>, <one ASCII character>): %s", src(e))
 			}
-			return tval{typ: "off", lean: "TF.indexOf " + leanChar(rune(pat[0])) + " " + tfWrap(s, 100), prec: 70, of: s.lean}
+			return tval{typ: "off", lean: "TF.indexOf " + leanChar(rune(pat[0])) + " " + tfWrap(s, 100), prec: 70, of: s.lean, atChar: true}
+		}
+		if px, sel, ok := selOf(e.Fun); ok && px == "strings" && sel == "IndexAny" && len(e.Args) == 2 {
+			// R3: the first position of one of two distinct ASCII characters is the smaller of the two
+			// first positions, or the only non-negative one, or -1
+			s := x.use(e.Args[0], x.pure(e.Args[0], env))
+			pat, isLit := stringLit(e.Args[1])
+			if s.typ != "str" || !isLit || len(pat) != 2 || pat[0] >= 0x80 || pat[1] >= 0x80 || pat[0] == pat[1] {
+				failAt(e, "expected strings.IndexAny(<string>, <two distinct ASCII characters>): %s", src(e))
+			}
+			i0 := "TF.indexOf " + leanChar(rune(pat[0])) + " " + tfWrap(s, 100)
+			i1 := "TF.indexOf " + leanChar(rune(pat[1])) + " " + tfWrap(s, 100)
+			lean := "if " + i0 + " < 0 then " + i1 + " else if " + i1 + " < 0 then " + i0 + " else min (" + i0 + ") (" + i1 + ")"
+			return tval{typ: "off", lean: lean, prec: 10, of: s.lean, atChar: true}
 		}
 		if fun, ok := e.Fun.(*ast.SelectorExpr); ok {
 			if kind, addr, ok := x.pureRecv(fun.X, env); ok {
@@ -456,7 +518,7 @@ func (x *tfx) slice(e *ast.SliceExpr, env *tfEnv) tval {
 	if s.typ != "str" || i.typ != "off" || i.of != s.lean {
 		failAt(e, "a string may only be sliced at an offset obtained by strings.Index on the same string: %s", src(e))
 	}
-	if !env.facts[i.lean] {
+	if !env.facts[i.lean] && !i.nonneg {
 		failAt(e, "%s is not known to be non-negative here (Go would panic on -1): %s", src(idx), src(e))
 	}
 	return tval{typ: "str", lean: tfWrap(s, 100) + "." + op + " " + tfWrap(i, 100) + ".toNat", prec: 70}
@@ -513,6 +575,8 @@ func (x *tfx) binary(e *ast.BinaryExpr, env *tfEnv) tval {
 		case a.typ == "off" && b.typ == "off" && a.of == b.of:
 		case a.typ == "off" && b.typ == "int" && b.lean == "0":
 		case a.typ == "kind" && b.typ == "kind" && !ordered:
+		case a.typ == "byte" && b.typ == "asciiLit" && !ordered:
+		case a.typ == "asciiLit" && b.typ == "byte" && !ordered:
 		default:
 			failAt(e, "unsupported comparison: %s", src(e))
 		}
@@ -525,6 +589,14 @@ func (x *tfx) binary(e *ast.BinaryExpr, env *tfEnv) tval {
 // the offsets a true condition shows to be non-negative (`x > 0` / `x >= 0` as a conjunct)
 func (x *tfx) learn(e ast.Expr, env *tfEnv, into *tfEnv) {
 	e = unparen(e)
+	if id, ok := e.(*ast.Ident); ok {
+		if v, ok := env.vars[id.Name]; ok && v.typ == "bool" {
+			for _, f := range v.implies {
+				into.facts[f] = true
+			}
+		}
+		return
+	}
 	b, ok := e.(*ast.BinaryExpr)
 	if !ok {
 		return
@@ -538,6 +610,26 @@ func (x *tfx) learn(e ast.Expr, env *tfEnv, into *tfEnv) {
 			if v, ok := env.vars[id.Name]; ok && v.typ == "off" {
 				into.facts[v.lean] = true
 			}
+		}
+	}
+}
+
+// the let-bound conditions whose value follows from `e` having the value val (they are immutable
+// Lean names, so the value holds on the whole path)
+func (x *tfx) assume(e ast.Expr, env *tfEnv, into *tfEnv, val bool) {
+	switch e := unparen(e).(type) {
+	case *ast.Ident:
+		if v, ok := env.vars[e.Name]; ok && v.typ == "bool" && !v.static && v.prec == 100 && v.lean != "" {
+			into.known[v.lean] = val
+		}
+	case *ast.UnaryExpr:
+		if e.Op == token.NOT {
+			x.assume(e.X, env, into, !val)
+		}
+	case *ast.BinaryExpr:
+		if (e.Op == token.LAND && val) || (e.Op == token.LOR && !val) {
+			x.assume(e.X, env, into, val)
+			x.assume(e.Y, env, into, val)
 		}
 	}
 }
@@ -782,13 +874,16 @@ func (x *tfx) execStmt(st ast.Stmt, env *tfEnv, k tfKont) lnode {
 		thenBranch := func() lnode {
 			e := env.clone()
 			x.learn(st.Cond, env, e)
+			x.assume(st.Cond, env, e, true)
 			return x.block(st.Body.List, e, k)
 		}
 		elseBranch := func() lnode {
+			e := env.clone()
+			x.assume(st.Cond, env, e, false)
 			if st.Else == nil {
-				return k(env.clone())
+				return k(e)
 			}
-			return x.execStmt(st.Else, env.clone(), k)
+			return x.execStmt(st.Else, e, k)
 		}
 		if c.static {
 			if c.value {
@@ -923,21 +1018,37 @@ func (x *tfx) execAssign(st *ast.AssignStmt, env *tfEnv, k tfKont) lnode {
 				if ok && old.typ != "undef" && old.typ != v.typ && v.typ != "undef" {
 					failAt(st, "%s changes its type", id.Name)
 				}
-				if ok && old.typ == "off" {
+				if ok && old.typ == "off" && (v.typ != "off" || v.of != old.of) {
+					// an offset variable keeps denoting an offset into the same string
 					failAt(st, "assignment to the offset %s", id.Name)
 				}
 				x.assign(st, e, id.Name, v)
 			}
 		}
 		switch v.typ {
-		case "self", "unit", "bool", "nil", "err", "nilerr":
+		case "self", "unit", "nil", "err", "nilerr":
 			failAt(st, "unsupported assignment: %s", src(st))
+		case "bool":
+			// a local condition: a known constant, or a let-bound Bool that remembers which offsets
+			// are non-negative when it is true
+			if !v.static {
+				tmp := e.clone()
+				tmp.facts = map[string]bool{}
+				x.learn(st.Rhs[0], e, tmp)
+				v.implies = nil
+				for f := range tmp.facts {
+					v.implies = append(v.implies, f)
+				}
+			}
 		}
 		// a compound expression is let-bound once
-		if v.typ != "undef" && v.prec < 100 {
+		if v.typ != "undef" && v.prec < 100 && !(v.typ == "bool" && v.static) {
 			name := x.fresh(id.Name)
 			val := v.lean
 			v.lean, v.prec = name, 100
+			if v.typ == "off" && v.nonneg {
+				e.facts[name] = true
+			}
 			bind(v)
 			return lLet{name: name, val: val, body: k(e)}
 		}
@@ -1001,7 +1112,7 @@ func (x *tfx) execFor(st *ast.ForStmt, env *tfEnv, k tfKont) lnode {
 	x.inLoop = true
 	saved := x.used
 	x.used = map[string]int{"h": 1, "k": 1, "a": 1, "p": 1}
-	benv := &tfEnv{heap: "h", vars: map[string]tval{}, facts: map[string]bool{}}
+	benv := &tfEnv{heap: "h", vars: map[string]tval{}, facts: map[string]bool{}, known: map[string]bool{}}
 	body := x.block(st.Body.List, benv, func(e *tfEnv) lnode { return lLeaf{name + " a k " + e.heap} })
 	x.used = saved
 	x.inLoop = false
@@ -1054,7 +1165,7 @@ func (x *tfx) define(f *tfFunc) string {
 	if strings.Join(types, ",") != strings.Join(wantTypes, ",") || f.m.recvName == "" {
 		failAt(fd, "%s: unexpected parameters", f.goName)
 	}
-	env := &tfEnv{heap: "h", vars: map[string]tval{}, facts: map[string]bool{}}
+	env := &tfEnv{heap: "h", vars: map[string]tval{}, facts: map[string]bool{}, known: map[string]bool{}}
 	x.used["h"], x.used["a"], x.used["fuel"], x.used["p"] = 1, 1, 1, 1
 	tfN := x.fresh(names[0])
 	x.declare(env, names[0], tfAtom("str", tfN))
